@@ -66,7 +66,9 @@ Step ==
             ELSE st' = [st EXCEPT !.ended = TRUE] /\ UNCHANGED bad
        [] e.e = "u" /\ op = "flow" ->
             \* the caller is cancelled / closed: fine; a private signal of the library reaching the caller is not
-            IF e.exc[1] \in {"cs", "ci", "wk"} THEN Fail("C16.internal_signal_escaped")
+            \* (the interrupt of an until-block around the call is the caller's own and passes through the call)
+            IF e.exc[1] \in {"cs", "ci", "wk"} /\ ~(st.cons = "until1" /\ e.exc[1] = "ci") THEN Fail("C16.internal_signal_escaped")
+            ELSE IF st.cons = "until1" /\ t # st.t0 + 1 THEN Fail("C16.abort_time")
             ELSE st' = [st EXCEPT !.ended = TRUE] /\ UNCHANGED bad
        [] e.e = "fin" ->
             IF e.out.k = "exc" /\ e.out.internal THEN Fail("C16.run_failed")
